@@ -44,7 +44,7 @@ def parseUltAsk (s : String) : UltAsk :=
   let ds := s.toList.takeWhile Char.isDigit
   let rest := s.toList.drop ds.length
   { target := (String.ofList ds).toInt?.getD 0,
-    typ := if rest.headD 'u' == 'u' then 0 else 1,
+    typ := (let c := rest.headD 'u'; if c == 'u' then 0 else if c == 'v' then 1 else if c == 'w' then 2 else 3),
     ev := (String.ofList (rest.drop 1)).toInt?.getD 0 }
 
 def parseUlts (s : String) : List (List UltAsk) :=
@@ -55,7 +55,8 @@ def kinds : List Kind :=
   [ { attackT := 3, skillT := 3, ultT := 3, spNeed := 1, spAdd := 1 },
     { attackT := 3, skillT := 2, ultT := 2, spNeed := 1, spAdd := 1 },
     { attackT := 3, skillT := 1, ultT := 1, spNeed := 2, spAdd := 1 },
-    { attackT := 3, skillT := 3, ultT := 3, spNeed := 0, spAdd := 2 } ]
+    { attackT := 3, skillT := 3, ultT := 3, spNeed := 0, spAdd := 2 },
+    { attackT := 3, skillT := 3, ultT := 3, spNeed := 1, spAdd := 1, multi := true } ]
 
 def cyc {β} [Inhabited β] (l : List β) (i : Nat) : β := if l.isEmpty then default else l.getD (i % l.length) default
 
